@@ -36,8 +36,10 @@ impl Write for SchedSink {
 }
 
 pub fn serialize(spec: &RespSpec) -> Vec<u8> {
+    // into an unbounded sink; a write_all that fails here (it never does on the unchanged code) leaves the bytes written
+    // so far, which the readers and comparisons downstream then reject with the builder calls as the failing input
     let mut v = Vec::new();
-    spec.build().write_all(&mut v).unwrap();
+    let _ = spec.build().write_all(&mut v);
     v
 }
 
